@@ -30,7 +30,8 @@ reg(Prop('C12', 'exploration', [
 reg(Prop('C13', 'exploration', [
     Sub('exh', 'tree', shards=(8, 16), cases=(1, 1), env={'VERIF_SUB': 'exh'}),
     Sub('rand', 'tree', shards=(8, 16), cases=(300, 5000), maxsize=(120, 400), env={'VERIF_SUB': 'rand'}),
-], rule='same generators as C12 restricted to RB and AVL plus adversarial bulk shapes (sorted/zig-zag/organ-pipe inserts, delete-min/max/median/root runs). '
+    Sub('big', 'tree', shards=(8, 12), cases=(1, 1), env={'VERIF_SUB': 'big', 'VERIF_CPU_BUDGET': 900}, timeout=(900, 3600)),
+], rule='same generators as C12 restricted to RB and AVL plus adversarial bulk shapes (sorted/zig-zag/organ-pipe inserts, delete-min/max/median/root runs). Large-tree sub-run: 131 079 keys (thorough also 524 295 and 1 048 583) inserted ascending / descending / organ-pipe / zig-zag into RB and AVL trees, half removed, a quarter re-inserted, with content, shape and depth checked after each phase (retrace and fix-up paths longer than 16 levels exist only in such trees). '
         'Oracle: shape reconstructed from lookup comparison paths; AVL height difference <=1 at every node; RB shape colourable (exact DP); depth bounds. '
         'Non-trivial = sequence in which >=1 removal restructured the tree (some surviving key got deeper); distinct = distinct (type, post-rotation shapes) hash.',
     assumptions=_tree_assume, corpus_harness='tree', design_ref='4/C13'))
